@@ -307,6 +307,48 @@ func (w *condWorld) pickKeys(n int, badProb float64) []int64 {
 }
 
 // genSecret draws a lock configuration of the given kind.
+// nearCondition: the same flags and threshold as base with a neighbouring key set (a listed key dropped or added, the
+// lock key exchanged with a listed one): everything a "same condition" test may confuse with base
+func (w *condWorld) nearCondition(base cSecret) cSecret {
+	c := base
+	c.nonce = ""
+	c.tags = nil
+	for _, t := range base.tags {
+		t2 := t
+		t2.keys = append([]int64(nil), t.keys...)
+		c.tags = append(c.tags, t2)
+	}
+	pk := -1
+	for i, t := range c.tags {
+		if t.typ == 3 {
+			pk = i
+		}
+	}
+	switch w.rng.Intn(4) {
+	case 0: // drop the pubkeys tag
+		if pk >= 0 {
+			c.tags = append(c.tags[:pk], c.tags[pk+1:]...)
+		}
+	case 1: // drop one listed key
+		if pk >= 0 && len(c.tags[pk].keys) > 0 {
+			k := w.rng.Intn(len(c.tags[pk].keys))
+			c.tags[pk].keys = append(c.tags[pk].keys[:k], c.tags[pk].keys[k+1:]...)
+		}
+	case 2: // the lock key is one of base's listed keys (and the list is gone)
+		if pk >= 0 && len(c.tags[pk].keys) > 0 && !c.isHash {
+			c.dataKey = c.tags[pk].keys[w.rng.Intn(len(c.tags[pk].keys))]
+			c.tags = append(c.tags[:pk], c.tags[pk+1:]...)
+		}
+	case 3: // one more listed key
+		if pk >= 0 {
+			c.tags[pk].keys = append(c.tags[pk].keys, int64(1+w.rng.Intn(nCondKeys)))
+		} else {
+			c.tags = append(c.tags, cTag{typ: 3, keys: []int64{int64(1 + w.rng.Intn(nCondKeys))}})
+		}
+	}
+	return c
+}
+
 func (w *condWorld) genSecret(kind int, forceSigAll int) cSecret {
 	r := w.rng
 	s := cSecret{kind: kind}
@@ -777,9 +819,15 @@ func condSwap(kind int) streamFn {
 					c := base // same condition, fresh nonce
 					c.nonce = ""
 					secs = append(secs, c)
+				case x < 9:
+					secs = append(secs, w.nearCondition(base))
 				default:
 					secs = append(secs, w.genSecret(kind, -1))
 				}
+			}
+			if nin > 1 && rng.Intn(4) == 0 {
+				// the richer of two neighbouring conditions first
+				secs[0], secs[sigAllPos] = secs[sigAllPos], secs[0]
 			}
 			var ins []S
 			var proofs cashu.Proofs
